@@ -238,7 +238,7 @@ pub fn stress_part() -> CustomPart {
     CustomPart {
         name: "stress",
         run: Box::new(|cfg: &RunCfg, findings: &Findings, stats: &mut PartStats| {
-            let rounds = cfg.cases(64, 12_000);
+            let rounds = cfg.cases(240, 12_000);
             let per_thread = cfg.tier.pick(40usize, 60usize);
             let mut config = Config::default();
             config.failure_persistence = None;
